@@ -41,7 +41,7 @@ def pow_term(base, e):
     return sym.F_pow(b, e)
 
 
-def _subterms(t, seen, out):
+def _subterms(t, seen, out, quants=None):
     stack = [t]
     while stack:
         t = stack.pop()
@@ -52,8 +52,25 @@ def _subterms(t, seen, out):
         if z3.is_app(t):
             out.append(t)
             stack.extend(t.children())
-        elif z3.is_quantifier(t):
-            stack.append(t.body())
+        elif z3.is_quantifier(t) and quants is not None:
+            quants.append(t)
+
+
+def _mentions(f, cs):
+    stack = [f]
+    seen = set()
+    while stack:
+        u = stack.pop()
+        if u.get_id() in seen:
+            continue
+        seen.add(u.get_id())
+        if any(u.eq(c) for c in cs):
+            return True
+        if z3.is_app(u):
+            stack.extend(u.children())
+        elif z3.is_quantifier(u):
+            stack.append(u.body())
+    return False
 
 
 def _klen(t):
@@ -85,11 +102,25 @@ class Axioms:
         for rnd in range(self.rounds):
             self._round = rnd
             terms = []
+            quants = []
             for f in frontier:
-                _subterms(f, self.seen, terms)
+                _subterms(f, self.seen, terms, quants)
             new = []
             for t in terms:
                 new.extend(self._inst(t))
+            for q in quants:
+                # instances for terms under a binder are emitted under the same binder
+                n = q.num_vars()
+                cs = [z3.Const(f"{q.var_name(i)}!a{q.get_id()}", q.var_sort(i)) for i in range(n)]
+                body = z3.substitute_vars(q.body(), *reversed(cs))
+                sub = []
+                _subterms(body, {}, sub, [])
+                for u in sub:
+                    for f in self._inst(u):
+                        if _mentions(f, cs):
+                            new.append(z3.ForAll(cs, f))
+                        else:
+                            new.append(f)
             new = [z3.simplify(n) for n in new]
             new = [n for n in new if not z3.is_true(n)]
             if not new:
